@@ -871,7 +871,7 @@ int_pos = Regex(r"\d+(?:[eE]\+?\d+)?").set_parser_name("int") / parse_int
 hex_num = Regex(r"0x[0-9a-fA-F]+").set_parser_name("hex") / (lambda t: {"hex": t[0][2:]})
 
 # STRINGS
-ansi_string = Regex(r"(?:_utf8mb4|_utf8|_latin1|_ascii|_ucs2|_binary|n|N)?\'(?:\'\'|[^'])*\'") / single_literal
+ansi_string = Regex(r"(?i:_utf8mb4|_utf8|_latin1|_ascii|_ucs2|_binary|n)?\'(?:\'\'|[^'])*\'") / single_literal
 regex_string = (Regex(r'r\"(?:\\\"|[^"])*\"') | Regex(r"r\'(?:\\\'|[^'])*\'")) / literal_regex
 mysql_doublequote_string = Regex(r'\"(?:\"\"|[^"])*\"') / double_literal
 
